@@ -66,7 +66,7 @@ pub struct RunOpts { pub symbol_base: Vec<String>, pub usd_years: Option<(i32, i
 
 pub enum RunErr { Panic(PanicInfo), Run(String), BadInit(String) }
 
-fn loader_for(o: &RunOpts) -> RateLoader {
+pub fn loader_for(o: &RunOpts) -> RateLoader {
     if let (Some((a, b)), true) = (o.usd_years, o.forced_over_wrong_cache) {
         let mut remote: HashMap<u32, Vec<DailyRate>> = HashMap::new();
         let mut cached: HashMap<u32, Vec<DailyRate>> = HashMap::new();
